@@ -339,9 +339,13 @@ func compactTOC(toc []byte, b *Base) string {
 
 // advNumbers: adversarial numbers around the given bounds and the int64 limits.
 func (g *Gen) advNumber(bounds ...int64) any {
-	consts := []string{"-1", "0", "1", "2", "3", "-2", "-3", "2147483647", "2147483648", "4294967295", "4294967296",
+	// Sizes between 2^27 and 2^62 are left out on purpose: they end in a real multi-gigabyte allocation
+	// whose outcome (slow success, out of memory) depends on the machine.  The same code paths are
+	// reached deterministically by 2^62.. ("makeslice: len out of range", "bytes.Buffer: too large")
+	// and by the 2^40 suspects.
+	consts := []string{"-1", "0", "1", "2", "3", "-2", "-3", "65535", "65536", "1048576", "-2147483648", "-4294967296",
 		"4611686018427387903", "4611686018427387904", "4611686018427387905", "9223372036854775806", "9223372036854775807",
-		"-9223372036854775808", "-9223372036854775807", "-4611686018427387904", "1099511627776", "9223372036854775808", "18446744073709551615",
+		"-9223372036854775808", "-9223372036854775807", "-4611686018427387904", "9223372036854775808", "18446744073709551615",
 		"1e30", "1.5", "-0", "1e3"}
 	switch g.R.Pick(5, 5, 1) {
 	case 0:
@@ -392,7 +396,7 @@ func (g *Gen) Structured() Input {
 			}
 			return g.blobInput(b, "toc:hardlink-cycleN", tocText(1, ents))
 		case 3:
-			n := int(r.Range(2, 3000))
+			n := int(r.Range(2, 600)) // walking a chain is quadratic in its length (Lookup resolves it each time)
 			for i := 0; i < n; i++ {
 				tgt := fmt.Sprintf("c%d", i+1)
 				if i == n-1 {
